@@ -96,6 +96,20 @@ def build_cli():
         lk.close()
 
 
+def ensure_fi():
+    """(Re)build the LD_PRELOAD write-fault interposer if it is missing or older than its source."""
+    lk = _locked("build_fi")
+    try:
+        src = os.path.join(HARNESS, "fi.c")
+        so = os.path.join(WORK, "fi.so")
+        if not os.path.exists(so) or os.path.getmtime(so) < os.path.getmtime(src):
+            run(["gcc", "-O2", "-shared", "-fPIC", "-o", so + ".tmp", src, "-ldl", "-lpthread"])
+            os.replace(so + ".tmp", so)
+        return so
+    finally:
+        lk.close()
+
+
 # ------------------------------------------------------------------ TLC
 def _tlc_env(extra=None, trace=False):
     e = {}
